@@ -418,3 +418,18 @@ NUMERIC,0,0,0,数字";
         assert!(result.is_err());
     }
 }
+
+#[cfg(feature = "verif")]
+impl UnkHandler {
+    pub const fn verif_from_parts(offsets: Vec<usize>, entries: Vec<UnkEntry>) -> Self {
+        Self { offsets, entries }
+    }
+
+    pub fn verif_offsets(&self) -> &[usize] {
+        &self.offsets
+    }
+
+    pub fn verif_entries(&self) -> &[UnkEntry] {
+        &self.entries
+    }
+}
